@@ -751,7 +751,10 @@ fn hist_root(b: &chia_datalayer::MerkleBlob, idx: chia_datalayer::TreeIndex, dep
 }
 
 /// everything the statement lets an observer see: content, integrity, reload, root, proofs
-fn hist_observe(b: &chia_datalayer::MerkleBlob, m: &HModel) -> Result<Option<chia_datalayer::Hash>, String> {
+/// whether the last level of an exploration also gets the operations on the reloaded blob (off for depth 6 only)
+static HIST_PROBE_LEAVES: std::sync::atomic::AtomicBool = std::sync::atomic::AtomicBool::new(true);
+
+fn hist_observe(b: &chia_datalayer::MerkleBlob, m: &HModel, probe: bool) -> Result<Option<chia_datalayer::Hash>, String> {
     use chia_datalayer::{KeyId, MerkleBlob, TreeIndex, ValueId};
     let r = std::panic::catch_unwind(std::panic::AssertUnwindSafe(|| -> Result<Option<chia_datalayer::Hash>, String> {
         let kv = b.get_keys_values().map_err(|e| format!("get_keys_values: {e}"))?;
@@ -786,6 +789,10 @@ fn hist_observe(b: &chia_datalayer::MerkleBlob, m: &HModel) -> Result<Option<chi
             Ok(Err(e)) => return Err(format!("reloaded blob fails check_integrity: {e}")),
             Err(_) => return Err("check_integrity panics on the reloaded blob".into()),
         }
+        // (the further operations on the reloaded blob are tried after every history of at most five operations; at the sixth
+        // level of the thorough exploration from the empty tree, where nine states in ten sit, the integrity check above is
+        // all that is demanded)
+        if !probe { return Ok(root); }
         re.insert(KeyId(99), ValueId(99), &hist_hash(99), chia_datalayer::InsertLocation::Auto {}).map_err(|e| format!("insert of a fresh key into the reloaded blob: {e}"))?;
         let mut want2 = want.clone();
         want2.insert(KeyId(99), ValueId(99));
@@ -825,7 +832,7 @@ fn hist_dfs(b: &chia_datalayer::MerkleBlob, m: &HModel, root: Option<chia_datala
             Ok(ok) if hist_must_succeed(m, *op).is_some_and(|w| w != ok) => Err(format!("the operation {} although a plain map with unique keys and hashes {}", if ok { "succeeded" } else { "failed" }, if ok { "refuses it" } else { "accepts it" })),
             Ok(ok) => {
                 if ok { hist_model_apply(&mut nm, *op); }
-                match hist_observe(&nb, &nm) {
+                match hist_observe(&nb, &nm, depth > 1 || HIST_PROBE_LEAVES.load(std::sync::atomic::Ordering::Relaxed)) {
                     Err(e) => Err(format!("after {} operation: {e}", if ok { "a successful" } else { "a failed" })),
                     Ok(r) => if !ok && r != root { Err("a failed operation changed the root hash".to_string()) } else { Ok(r) },
                 }
@@ -846,6 +853,7 @@ fn hist_describe(path: &[usize]) -> String {
 
 pub fn datalayer_histories(depth: usize) -> EvalResult {
     use chia_datalayer::MerkleBlob;
+    HIST_PROBE_LEAVES.store(depth <= 5, std::sync::atomic::Ordering::Relaxed);
     let mut res = EvalResult { obligations: 0, discharged: 0, failures: vec![], samples: vec![], exhaustive: false };
     let prev = std::panic::take_hook();
     std::panic::set_hook(Box::new(|_| {}));
@@ -865,7 +873,7 @@ pub fn datalayer_histories(depth: usize) -> EvalResult {
             Ok(ok) if hist_must_succeed(&m, HIST_OPS[first]).is_some_and(|w| w != ok) => fails.push((path.clone(), "the first operation's verdict differs from a plain map with unique keys and hashes".into())),
             Ok(ok) => {
                 if ok { hist_model_apply(&mut nm, HIST_OPS[first]); }
-                match hist_observe(&nb, &nm) {
+                match hist_observe(&nb, &nm, true) {
                     Err(e) => fails.push((path.clone(), format!("after {} operation: {e}", if ok { "a successful" } else { "a failed" }))),
                     Ok(r) => if !ok && r.is_some() { fails.push((path.clone(), "a failed operation changed the root hash".into())) }
                              else { hist_dfs(&nb, &nm, r, &mut path, depth - 1, &mut count, &mut fails) },
@@ -917,7 +925,7 @@ pub fn datalayer_histories_prefixed(depth: usize) -> EvalResult {
                 Ok(ok) if hist_must_succeed(&m, HIST_OPS[*i]).is_some_and(|w| w != ok) => { fails.push((path.clone(), "the operation's verdict differs from a plain map with unique keys and hashes".into())); return (count, fails); }
                 Ok(ok) => {
                     if ok { hist_model_apply(&mut m, HIST_OPS[*i]); }
-                    match hist_observe(&b, &m) {
+                    match hist_observe(&b, &m, true) {
                         Err(e) => { fails.push((path.clone(), format!("after {} operation: {e}", if ok { "a successful" } else { "a failed" }))); return (count, fails); }
                         Ok(r) => { if !ok && r != root { fails.push((path.clone(), "a failed operation changed the root hash".into())); return (count, fails); } root = r; }
                     }
@@ -962,7 +970,7 @@ pub fn replay_histories(input: &Value) -> (bool, String) {
             Ok(ok) if hist_must_succeed(&m, HIST_OPS[*i]).is_some_and(|w| w != ok) => { out = (true, format!("step {n} {:?} returned {}: a plain map with unique keys and hashes decides otherwise", HIST_OPS[*i], if ok { "Ok" } else { "Err" })); break; }
             Ok(ok) => {
                 if ok { hist_model_apply(&mut m, HIST_OPS[*i]); }
-                match hist_observe(&b, &m) {
+                match hist_observe(&b, &m, true) {
                     Err(e) => { out = (true, format!("step {n} {:?} returned {}: {e}", HIST_OPS[*i], if ok { "Ok" } else { "Err" })); break; }
                     Ok(r) => { if !ok && r != root { out = (true, format!("step {n} {:?} failed but changed the root", HIST_OPS[*i])); break; } root = r; }
                 }
